@@ -48,6 +48,12 @@ def run(ctx):
     from . import c04
     c04.r04_4(ctx, rep, roles)
     ctx.report.rules[-1].id = "R02.6(R04.4)"
+    # a SetMaxVersion after a refused key-value would move the receiver's frontier past entries it never got (seed R3-C02-2)
+    from . import c07
+    c07.r07_4(ctx, rep, roles, snd)
+    ctx.report.rules[-1].id = "R02.8(R07.4)"
+    from . import c14
+    c14.r14_5(ctx, rep, adm, P="C02", rule="R02.9")
     from .. import identity
     identity.check(ctx, rep, "C02", "R02.7", ["vv-clone"])
 
